@@ -1072,6 +1072,53 @@ def gen_mainloop():
 GENERATORS["MainLoop.v"] = gen_mainloop
 
 
+def gen_restore():
+    """main.initialize_X_and_G: the loop that rebuilds the stored points from the checkpoint's differences."""
+    L = ["(* GENERATED from /repo/lbfgsb/main.py by harness/translate.py - do not edit *)",
+         "From Coq Require Import List ZArith Bool Floats.PrimFloat.", "From LBFGSB Require Import Model.FloatVec Model.NumpyOps.", "Import ListNotations.", ""]
+    mt = ast.parse(_src("main.py"))
+    fn = _func(mt, "initialize_X_and_G")
+    loops = [st for st in fn.body if isinstance(st, ast.For)]
+    if len(loops) != 1:
+        raise TranslateError("initialize_X_and_G: expected one for loop")
+    lp = loops[0]
+    if not (ast.unparse(lp.target) == "(x, g)" and isinstance(lp.iter, ast.Call) and ast.unparse(lp.iter.func) == "zip" and len(lp.iter.args) == 2 and not lp.orelse):
+        raise TranslateError("initialize_X_and_G: unexpected loop header " + ast.unparse(lp.iter))
+
+    def points(e, base, rows):
+        # (checkpoint.<base> - np.cumsum(checkpoint.hess_inv.<rows>[::-1], axis=0))[::-1]
+        def is_rev(sub):
+            return isinstance(sub, ast.Subscript) and isinstance(sub.slice, ast.Slice) and sub.slice.lower is None and sub.slice.upper is None \
+                and sub.slice.step is not None and ast.unparse(sub.slice.step) == "-1"
+        if not (is_rev(e) and isinstance(e.value, ast.BinOp) and isinstance(e.value.op, ast.Sub) and ast.unparse(e.value.left) == "checkpoint." + base):
+            raise TranslateError("initialize_X_and_G: unexpected iterable " + ast.unparse(e))
+        cs = e.value.right
+        if not (isinstance(cs, ast.Call) and ast.unparse(cs.func) == "np.cumsum" and len(cs.args) == 1 and [(k.arg, ast.unparse(k.value)) for k in cs.keywords] == [("axis", "0")]
+                and is_rev(cs.args[0]) and ast.unparse(cs.args[0].value) == "checkpoint.hess_inv." + rows):
+            raise TranslateError("initialize_X_and_G: unexpected cumulative sum " + ast.unparse(cs))
+        # vector minus each row of the (reversed) cumulative sums, then reversed
+        return "List.rev (List.map (fun r_ => vsub v r_) (np_cumsum (List.rev rows)))"
+    tx = points(lp.iter.args[0], "x", "sk")
+    tg = points(lp.iter.args[1], "jac", "yk")
+    if tx != tg:
+        raise TranslateError("initialize_X_and_G: the two iterables differ")
+    L.append(f"Definition restored_points (v : vec) (rows : list vec) : list vec := {tx}.")
+    body = [ast.unparse(b_) for b_ in lp.body]
+    if body != ["if len(X) > maxcor:\n    X.popleft()\n    G.popleft()", "X.append(x)", "G.append(g)"]:
+        raise TranslateError("initialize_X_and_G: unexpected loop body " + " | ".join(body))
+    L.append("(* for x, g in zip(px, pg): if len(X) > maxcor: X.popleft(); G.popleft()  ;  X.append(x); G.append(g) *)")
+    L.append("Fixpoint push_pairs (maxcor : Z) (pts : list (vec * vec)) (X G : list vec) : list vec * list vec :=\n"
+             "  match pts with\n  | [] => (X, G)\n"
+             "  | (x_, g_) :: r => let '(X1, G1) := if (Z.of_nat (List.length X) >? maxcor)%Z then (List.tl X, List.tl G) else (X, G) in\n"
+             "                      push_pairs maxcor r (X1 ++ [x_]) (G1 ++ [g_])\n  end.")
+    L.append("Definition initialize_X_and_G (maxcor : Z) (x jac : vec) (sk yk : list vec) : list vec * list vec :=\n"
+             "  push_pairs maxcor (List.combine (restored_points x sk) (restored_points jac yk)) [] [].")
+    return "\n".join(L) + "\n"
+
+
+GENERATORS["RestoreGen.v"] = gen_restore
+
+
 def generate():
     """Write the generated files. Returns a list of error strings (empty = ok)."""
     os.makedirs(OUT, exist_ok=True)
